@@ -634,37 +634,39 @@ pub fn gen(rng: &mut Rng, tier: Tier, out: &mut Vec<String>) {
         let f = log_uniform(rng, 0.5, 4.0);
         let near = log_uniform(rng, 0.05, 2.0);
         let far = near * (2.0 + log_uniform(rng, 1.0, 200.0));
-        let sub = |rng: &mut Rng, m: u32| -> String {
+        // (range form, clamped extent inside the frame)
+        let sub = |rng: &mut Rng, m: u32| -> (String, u32, u32) {
             match rng.below(8) {
-                0 => "full".into(),
+                0 => ("full".into(), 0, m),
                 1 => {
                     // partly outside
-                    let a = rng.below(m as u64) as u32;
-                    format!("r:{}:{}", a, m + 1 + rng.below(10) as u32)
+                    let a = rng.below(m as u64 / 2) as u32;
+                    (format!("r:{}:{}", a, m + 1 + rng.below(10) as u32), a, m)
                 }
                 2 => {
                     // wholly outside
                     let a = m + rng.below(5) as u32;
-                    format!("r:{}:{}", a, a + 2 + rng.below(10) as u32)
+                    (format!("r:{}:{}", a, a + 2 + rng.below(10) as u32), 0, 0)
                 }
                 _ => {
                     let a = rng.below((m - 4) as u64) as u32;
-                    let b = a + 4 + rng.below((m - a - 3) as u64) as u32;
-                    format!("r:{a}:{}", b.min(m))
+                    let b = (a + 4 + rng.below((m - a - 3) as u64) as u32).min(m);
+                    (format!("r:{a}:{b}"), a, b)
                 }
             }
         };
-        let (hs, vs) = (sub(rng, w), sub(rng, h));
+        let ((hs, hl, hr), (vs, _vl, _vr)) = (sub(rng, w), sub(rng, h));
         let view = view_matrix(rng);
         // a world point given by its view-space coordinates q: p = R^T (q - t)
-        let z = match rng.below(6) {
+        let z = match rng.below(8) {
             0 => rng.f32_in(0.2 * near, near),
             1 => rng.f32_in(far, 1.5 * far),
-            _ => rng.f32_in(near, far.min(near * 50.0)),
+            _ => rng.f32_in(1.2 * near, (far / 1.2).min(near * 50.0)),
         };
         let a = w as f32 / h as f32;
-        let qx = rng.f32_in(-1.2, 1.2) * z / f;
-        let qy = rng.f32_in(-1.2, 1.2) * z / (f * a);
+        let lat = if rng.chance(1, 4) { 1.2 } else { 0.7 };
+        let qx = rng.f32_in(-lat, lat) * z / f;
+        let qy = rng.f32_in(-lat, lat) * z / (f * a);
         let qt = [qx - view[0][3], qy - view[1][3], z - view[2][3]];
         let mut p = [0.0f32; 3];
         for j in 0..3 {
@@ -672,8 +674,9 @@ pub fn gen(rng: &mut Rng, tier: Tier, out: &mut Vec<String>) {
                 p[j] += view[i][j] * qt[i];
             }
         }
-        // half-size of the triangle in world units: about 2.5 pixels
-        let half = 2.5 * z / (f * (w.min(h) as f32) * 0.5);
+        // half-size of the triangle in world units: about 3 pixels of the (clamped) viewport width
+        let vpw = (hr - hl).max(4) as f32;
+        let half = 3.0 * z / (f * vpw * 0.5);
         let vt: Vec<String> = view.iter().flatten().map(|x| h32(*x)).collect();
         out.push(format!(
             "camproj {w} {h} {} {} {} {hs} {vs} {} {} {} {}",
